@@ -149,7 +149,20 @@ fn gen_small(src: &mut Src, _t: Tier) -> Case {
 /// the bounded-exhaustive small-pattern slice of C01, here judged by executor agreement on full match sequences
 fn check_small(case: &Case, l: &mut Local) -> Verdict {
     static HAYS: std::sync::OnceLock<Vec<String>> = std::sync::OnceLock::new();
-    let hays = HAYS.get_or_init(|| all_strings(&[0x61, 0x62], 4));
+    check_small_on(case, HAYS.get_or_init(|| all_strings(&[0x61, 0x62], 4)), l)
+}
+
+fn gen_flag(src: &mut Src, _t: Tier) -> Case {
+    let v = super::c01::flag_slice();
+    v[(src.raw() as usize).min(v.len() - 1)].clone()
+}
+
+fn check_flag(case: &Case, l: &mut Local) -> Verdict {
+    static HAYS: std::sync::OnceLock<Vec<String>> = std::sync::OnceLock::new();
+    check_small_on(case, HAYS.get_or_init(|| all_strings(&[0x61, 0x41, 0x0A], 3)), l)
+}
+
+fn check_small_on(case: &Case, hays: &[String], l: &mut Local) -> Verdict {
     let fl = Fl::parse(&case.flags);
     let mut any = false;
     for no_opt in [false, true] {
@@ -165,7 +178,7 @@ fn check_small(case: &Case, l: &mut Local) -> Verdict {
                     continue;
                 }
                 if a != b {
-                    return Verdict::Fail(format!("executors differ on \"{}\" ({:?}, {}): backtrack={} pikevm={}", h, enc, if no_opt { "no_opt" } else { "opt" }, a.show(), b.show()));
+                    return Verdict::Fail(format!("executors differ on \"{}\" ({:?}, {}): backtrack={} pikevm={}", show_str(h), enc, if no_opt { "no_opt" } else { "opt" }, a.show(), b.show()));
                 }
                 if let Out::Ms(v) = &a {
                     any |= !v.is_empty();
@@ -178,22 +191,24 @@ fn check_small(case: &Case, l: &mut Local) -> Verdict {
 }
 
 pub static V_SMALL: Variant = Variant { name: "exhaustive_small_patterns", choice_len: 1, gen: gen_small, check: check_small };
+pub static V_FLAG: Variant = Variant { name: "exhaustive_flag_slice", choice_len: 1, gen: gen_flag, check: check_flag };
 pub static V_GENERAL: Variant = Variant { name: "general", choice_len: 400, gen, check };
 pub static V_ASCII: Variant = Variant { name: "ascii_hay", choice_len: 400, gen: gen_ascii, check };
 pub static V_SCM: Variant = Variant { name: "single_char_loops", choice_len: 300, gen: gen_scm, check };
 
 pub fn variants() -> Vec<&'static Variant> {
-    vec![&V_GENERAL, &V_ASCII, &V_SCM, &V_SMALL]
+    vec![&V_GENERAL, &V_ASCII, &V_SCM, &V_SMALL, &V_FLAG]
 }
 
 pub fn run(ctx: &Ctx) -> i32 {
     ctx.run_list(&V_SMALL, super::c01::small_slice(true));
+    ctx.run_list(&V_FLAG, super::c01::flag_slice());
     ctx.run_variant(&V_GENERAL, ctx.scale(600_000, 10_000_000));
     ctx.run_variant(&V_ASCII, ctx.scale(300_000, 4_000_000));
     ctx.run_variant(&V_SCM, ctx.scale(300_000, 4_000_000));
     ctx.finish(
         "exploration",
-        "(bounded-exhaustive) the 141k patterns of the small grammar of C01 x all haystacks in {a,b}^<=4 x both pipelines x UTF-8/ASCII, full match sequences; plus random ES patterns (valid by construction, all 24 flag sets, themed alphabets) x haystacks x start offsets; both pipelines (opt/no_opt), UTF-8 and (on ASCII haystacks) ASCII entry points; oracle = differential between the two executors on the same compiled program. Non-trivial = at least one match found and the pattern contains a split (alternation or quantifier); distinct by hash of (pattern, flags, haystack, start).",
+        "(bounded-exhaustive) the 141k patterns of the small grammar of C01 x all haystacks in {a,b}^<=4 x both pipelines x UTF-8/ASCII, full match sequences; the flag slice of C01 (200k pattern/flag combinations, all 16 i,m,s x legacy/u sets) x all haystacks over {a, A, LF} up to length 3; plus random ES patterns (valid by construction, all 24 flag sets, themed alphabets) x haystacks x start offsets; both pipelines (opt/no_opt), UTF-8 and (on ASCII haystacks) ASCII entry points; oracle = differential between the two executors on the same compiled program. Non-trivial = at least one match found and the pattern contains a split (alternation or quantifier); distinct by hash of (pattern, flags, haystack, start).",
         &["fuel hook cuts runaway searches (counted, never judged)", "both executors share parser/optimizer/emitter: this check says nothing about agreement with ECMAScript (C01)"],
     )
 }
